@@ -32,6 +32,7 @@ const (
 	opForeign           // call the release func of another goroutine's holder (non-blocking pick)
 	opSnipe             // wait (bounded) for another holder's f to return, then release that holder
 	opTRNoHolder        // TemporarilyRelease on a context without holder
+	opTRPanic           // like opTR, but f panics after Sub; the goroutine recovers and carries on in its critical section
 	opChild             // start a goroutine that calls Acquire on THIS holder's returned context (nested Acquire), runs Sub, releases
 )
 
@@ -61,6 +62,8 @@ func opsString(ops []op) string {
 			fmt.Fprintf(&sb, "w%d", o.A)
 		case opTR:
 			sb.WriteString("T(" + opsString(o.Sub) + ")")
+		case opTRPanic:
+			sb.WriteString("P(" + opsString(o.Sub) + ")")
 		case opRel:
 			sb.WriteString("R")
 		case opForeign:
@@ -94,7 +97,11 @@ func genOps(r *rand.Rand, n, depth int, simple, child bool) []op {
 			if depth >= 3 || (simple && depth >= 1) {
 				ops = append(ops, op{K: opWork, A: 1})
 			} else {
-				ops = append(ops, op{K: opTR, Sub: genOps(r, r.Intn(4), depth+1, simple, child)})
+				k := opTR
+				if r.Intn(5) == 0 {
+					k = opTRPanic
+				}
+				ops = append(ops, op{K: k, Sub: genOps(r, r.Intn(4), depth+1, simple, child)})
 			}
 		case k < 7:
 			ops = append(ops, op{K: opRel})
@@ -173,6 +180,9 @@ func (e *env) runOps(a *actor, r *rand.Rand, h *holder, ops []op, inTR bool) {
 				e.count("op:tr")
 			}
 			e.tr(a, h, func() { e.runOps(a, r, h, o.Sub, true) })
+		case opTRPanic:
+			e.count("op:tr_f_panics_recovered")
+			e.trFault(a, h, func() { e.runOps(a, r, h, o.Sub, true) }, faultPanic)
 		case opRel:
 			if inTR {
 				e.count("op:release_during_own_tr")
@@ -330,6 +340,32 @@ func (e *env) epilogue(run *vlib.Run, i int, desc map[string]interface{}) bool {
 			gosched(1)
 		}
 	}
+	// the limiter is still full and the (n+1)-th goroutine (live context) is
+	// parked inside Acquire: an Acquire on a context cancelled before the call,
+	// and one whose context is cancelled while it waits, must both return now
+	behind := make(chan struct{})
+	ba, ca := e.newActor(), e.newActor()
+	go func() {
+		cctx, cancel := context.WithCancel(e.base)
+		cancel()
+		h1 := e.acquire(ba, cctx, ctxPreCancelled, nil)
+		e.release(ba, h1)
+		wctx, wcancel := context.WithCancel(e.base)
+		ct := new(int64)
+		*ct = inf
+		got := make(chan *holder, 1)
+		go func() { got <- e.acquire(ca, wctx, ctxCancelDuring, ct) }()
+		gosched(10)
+		atomic.StoreInt64(ct, ba.ev(e, -1, evCancel, 0))
+		wcancel()
+		h2 := <-got
+		e.release(ba, h2)
+		close(behind)
+	}()
+	if o := e.await(behind); o != vlib.Reached {
+		e.hang(run, i, o, "Acquire on a cancelled context (cancelled before the call, then cancelled while waiting) while the limiter is full and a goroutine with a live context is parked in Acquire", desc)
+		return false
+	}
 	close(goRel[0])
 	if o := e.await(extra); o != vlib.Reached {
 		e.hang(run, i, o, "capacity check: (n+1)-th Acquire after one of the n holders released", desc)
@@ -390,9 +426,14 @@ func (e *env) shape(evs []event, ov overlap) (string, bool, map[string]int) {
 			if ev.D == 0 {
 				state[ev.H] = 2
 			}
-		case evTRRet:
+		case evTRRet, evTRUnwound:
 			if ev.D == 0 {
-				sb.WriteByte('u')
+				if ev.K == evTRUnwound {
+					sb.WriteByte('p')
+					feats["tr_unwound_by_panic_or_goexit"]++
+				} else {
+					sb.WriteByte('u')
+				}
 				state[ev.H] = 0
 			}
 		case evRelCall:
@@ -490,7 +531,7 @@ func randomScenario(run *vlib.Run, i int, agg *vlib.HitAgg, simple bool) (*env, 
 		ss = append(ss, fmt.Sprintf("g%d: %s", k, s))
 	}
 	desc["scripts"] = ss
-	desc["script_format"] = "A:<ctx>[ops]R<k>: Acquire, ops, k release calls; wK yields, T(..) TemporarilyRelease, R own release, F foreign release, S foreign release aimed at a returning TemporarilyRelease, N TemporarilyRelease without holder, C{..} another goroutine calls Acquire on this holder's returned context (nested Acquire), runs the ops, releases"
+	desc["script_format"] = "A:<ctx>[ops]R<k>: Acquire, ops, k release calls; wK yields, T(..) TemporarilyRelease, P(..) TemporarilyRelease whose f panics (recovered), R own release, F foreign release, S foreign release aimed at a returning TemporarilyRelease, N TemporarilyRelease without holder, C{..} another goroutine calls Acquire on this holder's returned context (nested Acquire), runs the ops, releases"
 
 	y.Install()
 	defer vlib.Uninstall()
@@ -836,6 +877,133 @@ func nestedScenario(run *vlib.Run, i, k int, agg *vlib.HitAgg) {
 	}
 }
 
+// faultScenario: A acquires, calls TemporarilyRelease with an f that panics
+// (recovered by A) or calls runtime.Goexit (A's deferred function carries on);
+// A is then outside TemporarilyRelease and still between Acquire and release.
+// n-1 others hold; B's Acquire must not return before A's release is begun
+// (tick order), and must return after it.
+func faultScenario(run *vlib.Run, i, k int, agg *vlib.HitAgg) {
+	n := 1 + k%3
+	fault := []int{faultPanic, faultGoexit}[(k/3)%2]
+	intensity := []int{0, 25}[(k/6)%2]
+	nested := (k/12)%2 == 1
+	e := newEnv(n)
+	y := vlib.NewYielder(run.Seed()*15485863+int64(i), intensity)
+	e.y = y
+	y.Install()
+	defer vlib.Uninstall()
+	defer agg.Add(y)
+	desc := map[string]interface{}{"kind": "fault-in-f", "fault": []string{"", "panic (recovered)", "runtime.Goexit (deferred function carries on)"}[fault], "fault_in_nested_tr": nested, "yield_intensity": intensity,
+		"scenario": "A: ctxA, relA := Acquire(base); TemporarilyRelease(ctxA, f) where f raises the fault; A carries on in its critical section; n-1 others hold; B: Acquire(base); A releases only after B had its chance"}
+	var wg sync.WaitGroup
+	aHolds := make(chan struct{})
+	aBack := make(chan struct{})
+	relA := make(chan struct{})
+	relAll := make(chan struct{})
+	aa := e.newActor()
+	wg.Add(1)
+	go func() {
+		defer wg.Done()
+		h := e.acquire(aa, e.base, ctxNormal, nil)
+		close(aHolds)
+		defer func() {
+			// reached after the recovered panic as well as while Goexit unwinds
+			close(aBack)
+			<-relA
+			e.release(aa, h)
+		}()
+		if nested {
+			e.tr(aa, h, func() { e.trFault(aa, h, func() {}, fault) })
+		} else {
+			e.trFault(aa, h, func() {}, fault)
+		}
+	}()
+	fail := func(o vlib.Outcome, what string) {
+		e.hang(run, i, o, what, desc)
+		run.Case("fault hang", false)
+	}
+	if o := e.await(aHolds); o != vlib.Reached {
+		fail(o, "first Acquire")
+		return
+	}
+	var held int32
+	othersHold := make(chan struct{})
+	if n == 1 {
+		close(othersHold)
+	}
+	for c := 0; c < n-1; c++ {
+		oa := e.newActor()
+		wg.Add(1)
+		go func() {
+			defer wg.Done()
+			h := e.acquire(oa, e.base, ctxNormal, nil)
+			if int(atomic.AddInt32(&held, 1)) == n-1 {
+				close(othersHold)
+			}
+			<-relAll
+			e.release(oa, h)
+		}()
+	}
+	if o := e.await(aBack); o != vlib.Reached {
+		fail(o, "TemporarilyRelease with a faulting f")
+		return
+	}
+	if o := e.await(othersHold); o != vlib.Reached {
+		fail(o, "Acquire of the n-1 other holders")
+		return
+	}
+	bGot := make(chan struct{})
+	ab := e.newActor()
+	wg.Add(1)
+	go func() {
+		defer wg.Done()
+		h := e.acquire(ab, e.base, ctxNormal, nil)
+		close(bGot)
+		<-relAll
+		e.release(ab, h)
+	}()
+	for c := 0; c < 40; c++ {
+		select {
+		case <-bGot:
+			c = 40
+		default:
+			gosched(1)
+		}
+	}
+	close(relA)
+	if o := e.await(bGot); o != vlib.Reached {
+		fail(o, "Acquire after A released")
+		return
+	}
+	close(relAll)
+	done := make(chan struct{})
+	go func() { wg.Wait(); close(done) }()
+	if o := e.await(done); o != vlib.Reached {
+		fail(o, "final releases")
+		return
+	}
+	if !e.epilogue(run, i, desc) {
+		run.Case("fault hang", false)
+		return
+	}
+	ov := e.verdict(run, i, desc)
+	evs := e.merged()
+	sh, _, feats := e.shape(evs, ov)
+	run.Case(fmt.Sprintf("fault=%d nested=%v %s", fault, nested, sh), true)
+	run.Count("fault_in_f_cases", 1)
+	for f, c := range feats {
+		run.Count("observed:"+f, c)
+	}
+	e.mu.Lock()
+	for f, c := range e.feat {
+		run.Count(f, c)
+	}
+	e.mu.Unlock()
+	if n <= 2 {
+		porcupineCheck(run, i, e, evs, 24)
+	}
+}
+
 // ---------------------------------------------------------------- porcupine
 
 type semIn struct {
@@ -931,7 +1099,7 @@ func history(evs []event, normal map[int]bool) []porcupine.Operation {
 		case evFEnd:
 			k[2] = 3
 			open[k] = ev.T
-		case evTRRet:
+		case evTRRet, evTRUnwound:
 			k[2] = 3
 			ops = append(ops, porcupine.Operation{ClientId: ev.G, Input: semIn{"trEnd", ev.H}, Call: open[k], Return: ev.T})
 		}
@@ -998,7 +1166,8 @@ func TestCheck(t *testing.T) {
 	defer run.Finish()
 	run.Rule("three seeded families on the real limiter: (1) targeted: n in 1..4, H1 inside TemporarilyRelease, n others hold, a foreign release of H1 is injected at hook limiter.block.reacquiring and an extra Acquire is issued (with/without an Acquire already parked, with/without random yields); " +
 		"(1b) nested Acquire: n in 2..4, parent P holds and keeps running, 1..2 child goroutines Acquire on P's returned context and wait inside (nested) TemporarilyRelease, n others Acquire, P releases only after n-1 of them hold; " +
-		"(2) random: n in 1..4, 2..24 goroutines, each 1..3 Acquire segments on a limiter / pre-cancelled / limiter-less / concurrently-cancelled context with bodies of nested TemporarilyRelease (depth<=3), early and double release, release inside own TemporarilyRelease, release of other goroutines' holders (also aimed at a returning TemporarilyRelease), child goroutines that Acquire on the running parent's returned context and mostly wait inside TemporarilyRelease, TemporarilyRelease without holder, random hook yields and an optional injected release at a limiter hook; every scenario ends with the capacity check (n fresh Acquires, Acquire on cancelled / limiter-less contexts while all tokens are held, (n+1)-th Acquire only after a release); " +
+		"(1c) fault inside f: n in 1..3, A acquires and calls TemporarilyRelease (optionally nested) with an f that panics (recovered) or calls runtime.Goexit (deferred function carries on), A stays in its critical section, n-1 others hold, B's Acquire must wait for A's release; " +
+		"(2) random: n in 1..4, 2..24 goroutines, each 1..3 Acquire segments on a limiter / pre-cancelled / limiter-less / concurrently-cancelled context with bodies of nested TemporarilyRelease (depth<=3, one in five with an f that panics and is recovered), early and double release, release inside own TemporarilyRelease, release of other goroutines' holders (also aimed at a returning TemporarilyRelease), child goroutines that Acquire on the running parent's returned context and mostly wait inside TemporarilyRelease, TemporarilyRelease without holder, random hook yields and an optional injected release at a limiter hook; every scenario ends with the capacity check (n fresh Acquires, Acquire on cancelled / limiter-less contexts while all tokens are held, again on a pre-cancelled and on a cancelled-while-waiting context with a live goroutine parked in Acquire, (n+1)-th Acquire only after a release); " +
 		"(3) the targeted histories with n<=2 and short random histories (<=12 scripted operations plus the capacity check, n in 1..2, 2..4 goroutines) additionally checked with porcupine against a counting-semaphore model. " +
 		"Non-trivial = the limit was reached in the scripted part (observed overlap == n before the capacity check) and some holder had a TemporarilyRelease plus a foreign release or a release inside it; distinct = n, max overlap and the multiset of per-holder lifecycles (outermost TR enter/return, own/foreign release and whether it fell outside TR, inside f, or in the re-acquire window).")
 	run.Assume("holding spans are bracketed by ticks of one atomic counter taken after Acquire returned / before release is called / before TemporarilyRelease is entered / after it returned, so the monitor can only under-count")
@@ -1008,9 +1177,10 @@ func TestCheck(t *testing.T) {
 	agg := vlib.NewHitAgg()
 	nT := run.N(240, 4000)
 	nN := run.N(120, 3000)
+	nF := run.N(96, 2400)
 	nR := run.N(30000, 1600000)
 	nP := run.N(1500, 100000)
-	run.Each(nT+nN+nR+nP, 1, func(i int) {
+	run.Each(nT+nN+nF+nR+nP, 1, func(i int) {
 		if run.Violations() >= 6 {
 			// enough unclassified witnesses; hung scenarios leave parked goroutines
 			// behind and cost seconds each, so stop early
@@ -1023,7 +1193,9 @@ func TestCheck(t *testing.T) {
 			targetedScenario(run, i, agg)
 		case i < nT+nN:
 			nestedScenario(run, i, i-nT, agg)
-		case i < nT+nN+nR:
+		case i < nT+nN+nF:
+			faultScenario(run, i, i-nT-nN, agg)
+		case i < nT+nN+nF+nR:
 			randomScenario(run, i, agg, false)
 		default:
 			porcupineScenario(run, i, agg)
